@@ -157,6 +157,47 @@ void sources_field(Ctx &c, Node &n, const E &e, const std::string &where) {
     } catch (const std::exception &) { l.val = "<throws>"; }
 }
 
+void obs_dim_fields(Ctx &c, Node &d, const Dimension &dim) {
+    DimensionType t;
+    try { t = dim.dimensionType(); } catch (const std::exception &) { d.add("kind", "<throws>"); return; }
+    if (t == DimensionType::Sample) {
+        d.add("kind", "sampled");
+        SampledDimension s = dim.asSampledDimension();
+        FIELD(d, "interval", dbl_bits(s.samplingInterval()));
+        FIELD(d, "offset", opt_d(s.offset()));
+        FIELD(d, "label", opt_s(s.label()));
+        FIELD(d, "unit", opt_s(s.unit()));
+        if (c.opt->check_dims) { try { if (!(s.samplingInterval() > 0)) c.bad("C13.sorted-positive stored sampling interval is not positive"); } catch (...) {} }
+    } else if (t == DimensionType::Range) {
+        d.add("kind", "range");
+        RangeDimension r = dim.asRangeDimension();
+        FIELD(d, "alias", r.alias() ? "1" : "0");
+        FIELD(d, "ticks", vec_d(r.ticks()));
+        FIELD(d, "label", opt_s(r.label()));
+        FIELD(d, "unit", opt_s(r.unit()));
+        if (c.opt->check_dims) {
+            try {
+                std::vector<double> tk = r.ticks();
+                for (size_t k = 1; k < tk.size(); k++) if (!(tk[k - 1] <= tk[k])) { if (!r.alias()) c.bad("C13.sorted-positive stored ticks are not ascending"); break; }
+            } catch (...) {}
+        }
+    } else if (t == DimensionType::Set) {
+        d.add("kind", "set");
+        SetDimension s = dim.asSetDimension();
+        FIELD(d, "labels", vec_s(s.labels()));
+        FIELD(d, "label", opt_s(s.label()));
+    } else if (t == DimensionType::DataFrame) {
+        d.add("kind", "frame");
+        DataFrameDimension f = dim.asDataFrameDimension();
+        c.getters++;
+        try { DataFrame df = f.data(); d.add("lnk_frame", df ? df.id() : "<none>"); }
+        catch (const std::exception &) { d.add("lnk_frame", "<throws>"); }
+        c.getters++;
+        try { boost::optional<unsigned> ci = f.columnIndex(); d.add("column", ci ? std::to_string(*ci) : "<none>"); }
+        catch (const std::exception &) { d.add("column", "<throws>"); }
+    } else d.add("kind", "?");
+}
+
 void obs_dims(Ctx &c, Node &n, const DataArray &da) {
     Node &l = n.sub("dims", true);
     try {
@@ -174,44 +215,7 @@ void obs_dims(Ctx &c, Node &n, const DataArray &da) {
                     if (!g || g.dimensionType() != dim.dimensionType()) c.bad("C13.gapfree getDimension(" + std::to_string(i + 1) + ") disagrees with enumeration");
                 } catch (const std::exception &e) { c.bad(std::string("C13.gapfree getDimension threw: ") + e.what()); }
             }
-            DimensionType t;
-            try { t = dim.dimensionType(); } catch (const std::exception &) { d.add("kind", "<throws>"); continue; }
-            if (t == DimensionType::Sample) {
-                d.add("kind", "sampled");
-                SampledDimension s = dim.asSampledDimension();
-                FIELD(d, "interval", dbl_bits(s.samplingInterval()));
-                FIELD(d, "offset", opt_d(s.offset()));
-                FIELD(d, "label", opt_s(s.label()));
-                FIELD(d, "unit", opt_s(s.unit()));
-                if (c.opt->check_dims) { try { if (!(s.samplingInterval() > 0)) c.bad("C13.sorted-positive stored sampling interval is not positive"); } catch (...) {} }
-            } else if (t == DimensionType::Range) {
-                d.add("kind", "range");
-                RangeDimension r = dim.asRangeDimension();
-                FIELD(d, "alias", r.alias() ? "1" : "0");
-                FIELD(d, "ticks", vec_d(r.ticks()));
-                FIELD(d, "label", opt_s(r.label()));
-                FIELD(d, "unit", opt_s(r.unit()));
-                if (c.opt->check_dims) {
-                    try {
-                        std::vector<double> tk = r.ticks();
-                        for (size_t k = 1; k < tk.size(); k++) if (!(tk[k - 1] <= tk[k])) { if (!r.alias()) c.bad("C13.sorted-positive stored ticks are not ascending"); break; }
-                    } catch (...) {}
-                }
-            } else if (t == DimensionType::Set) {
-                d.add("kind", "set");
-                SetDimension s = dim.asSetDimension();
-                FIELD(d, "labels", vec_s(s.labels()));
-                FIELD(d, "label", opt_s(s.label()));
-            } else if (t == DimensionType::DataFrame) {
-                d.add("kind", "frame");
-                DataFrameDimension f = dim.asDataFrameDimension();
-                c.getters++;
-                try { DataFrame df = f.data(); d.add("lnk_frame", df ? df.id() : "<none>"); }
-                catch (const std::exception &) { d.add("lnk_frame", "<throws>"); }
-                c.getters++;
-                try { boost::optional<unsigned> ci = f.columnIndex(); d.add("column", ci ? std::to_string(*ci) : "<none>"); }
-                catch (const std::exception &) { d.add("column", "<throws>"); }
-            } else d.add("kind", "?");
+            obs_dim_fields(c, d, dim);
         }
     } catch (const std::exception &) { l.val = "<throws>"; }
 }
@@ -481,6 +485,7 @@ SINGLE(observe_source, Source, { named_fields(c, n, e); metadata_field(c, n, e);
 SINGLE(observe_section, Section, { named_fields(c, n, e); FIELD(n, "repository", opt_s(e.repository())); c.getters++; try { Section l = e.link(); n.add("lnk_link", l ? l.id() : "<none>"); } catch (const std::exception &) { n.add("lnk_link", "<throws>"); }
     Node &pl = n.sub("properties", true); try { for (auto &p : e.properties()) { Node &k = pl.sub(""); obs_property(c, k, p); } } catch (const std::exception &) { pl.val = "<throws>"; } })
 SINGLE(observe_property, Property, obs_property(c, n, e))
+SINGLE(observe_dimension, Dimension, { FIELD(n, "index", std::to_string((unsigned long long) e.index())); obs_dim_fields(c, n, e); })
 
 Node observe(const File &b, const ObsOpts &opt, std::vector<std::string> *viol, uint64_t *getters) {
     Ctx c; c.opt = &opt; c.viol = viol; c.getters = 0;
